@@ -138,11 +138,16 @@ fn pass_2_internal(segment: &Segment, common_context: &CommonContext) -> Result<
                 }
             }
             Item::Undef(alias) => {
-                if let None = common_context.defs.borrow_mut().remove(alias) {
+                if let None = common_context
+                    .defs
+                    .borrow_mut()
+                    .remove(&alias.to_lowercase())
+                {
                     bail!("Identifier {} isn't defined, {}", alias, line);
                 }
             }
             Item::Set(name, expr) => {
+                let name = &name.to_lowercase();
                 let value = match expr.run(common_context) {
                     Ok(value) => value,
                     Err(e) => bail!("{}, {}", e, line),
